@@ -4,11 +4,13 @@ import Kaira.Verbs17
 import Kaira.VerbsMod
 import Kaira.VerbsFec
 import Kaira.VerbsChan
+import Kaira.VerbsPolar
 open Kaira
 
 structure DState where
   tables : Verbs.Tables := []
   codes : Verbs.CodeTable := []
+  rank : List Nat := []
 
 def natVerb (verb : String) (args : List String) : Option String :=
   match args.mapM String.toNat? with
@@ -29,6 +31,9 @@ def dispatch (st : DState) (line : String) : DState × String :=
     match Verbs.defTable (verb :: args) with
     | some (n, t) => ({ st with tables := (n, t) :: st.tables.filter (·.1 ≠ n) }, "ok")
     | none =>
+    match (if verb = "defrank" then (args.head?.bind Proto.natList?) else none) with
+    | some r => ({ st with rank := r }, "ok")
+    | none =>
     match Verbs.defCode (verb :: args) with
     | some (n, c) => ({ st with codes := (n, c) :: st.codes.filter (·.1 ≠ n) }, "ok")
     | none =>
@@ -38,6 +43,7 @@ def dispatch (st : DState) (line : String) : DState × String :=
         fun _ => Verbs.cbin toks,
         fun _ => Verbs.canalog toks,
         fun _ => Verbs.cconstraint toks,
+        fun _ => Verbs.cpolar st.rank toks,
         fun _ => natVerb verb args,
         fun _ => Verbs.c16 toks,
         fun _ => Verbs.c17 toks,
